@@ -18,6 +18,7 @@ import (
 	"path/filepath"
 	"regexp"
 	"sort"
+	"strconv"
 	"strings"
 	"time"
 
@@ -57,11 +58,10 @@ func genClaimExpr(g *exprgen.G, r interface{ Intn(int) int }) string {
 	intX := func() string {
 		return pick("a", "b", "c", "a", "fi()", "gi()", "hi(a)", "xs[a]", "a + 1", "(a)", "len(s)", "a * b")
 	}
-	floatX := func() string { return pick("p", "q", "p", "ff()", "p + 1.5", "hf(p)") }
+	floatX := func() string { return pick("p", "q", "p", "ff()", "p + 1.5", "hf(p)", "mf", "mg", "fmf()") }
 	constI := func() string {
 		return pick("0", "1", "2", "5", "7", "9", "10", "-3", "2 - 1", "(4)", "3 + 4", "0x10", "010")
 	}
-	constF := func() string { return pick("0.5", "1.5", "2", "7.25", "-1.5", "10") }
 	var e string
 	switch n := r.Intn(100); {
 	case n < 22: // sloppyLen
@@ -70,33 +70,52 @@ func genClaimExpr(g *exprgen.G, r interface{ Intn(int) int }) string {
 		if r.Intn(8) == 0 {
 			e = "0 <= len(" + x + ")"
 		}
-	case n < 50: // badCond
-		if r.Intn(3) == 0 {
-			x := floatX()
-			x2 := x
-			if r.Intn(10) == 0 {
-				x2 = floatX()
-			}
-			e = x + " < " + constF() + " && " + x2 + " > " + constF()
+	case n < 50: // badCond: `x op1 c1 && x op2 c2` for every operator pair, constants equal / adjacent / apart
+		ops := []string{"<", "<=", ">", ">=", "==", "!="}
+		var o1, o2 string
+		switch r.Intn(4) {
+		case 0, 1: // upper bound then lower bound, strict or inclusive
+			o1, o2 = ops[r.Intn(2)], ops[2+r.Intn(2)]
+		case 2: // lower bound then upper bound
+			o1, o2 = ops[2+r.Intn(2)], ops[r.Intn(2)]
+		default:
+			o1, o2 = ops[r.Intn(6)], ops[r.Intn(6)]
+		}
+		isF := r.Intn(3) == 0
+		var x, c1, c2 string
+		if isF {
+			x = floatX()
+			base := []float64{0.5, 1.5, 2, 7.25, -1.5, 10}[r.Intn(6)]
+			d := []float64{0, 0, 0.5, 0.5, 1, 3, -1, -4}[r.Intn(8)]
+			c1, c2 = strconv.FormatFloat(base, 'f', -1, 64), strconv.FormatFloat(base+d, 'f', -1, 64)
 		} else {
-			x := intX()
-			x2 := x
-			if r.Intn(10) == 0 {
+			x = intX()
+			base := []int{0, 1, 2, 5, 7, 9, 10, -3}[r.Intn(8)]
+			d := []int{0, 0, 1, 1, 2, 3, 5, 1, -1, -2, -6}[r.Intn(11)]
+			c1, c2 = strconv.Itoa(base), strconv.Itoa(base+d)
+			if r.Intn(5) == 0 {
+				c1 = constI() // other spellings: constant expressions, hex, octal, parentheses
+			}
+			if r.Intn(5) == 0 {
+				c2 = constI()
+			}
+		}
+		x2 := x
+		if r.Intn(10) == 0 {
+			if isF {
+				x2 = floatX()
+			} else {
 				x2 = intX()
 			}
-			o1, o2 := "<", ">"
-			if r.Intn(8) == 0 {
-				o1, o2 = pick("<=", ">", "<"), pick(">=", "<", ">")
-			}
-			l, rr := x+" "+o1+" "+constI(), x2+" "+o2+" "+constI()
-			if r.Intn(6) == 0 {
-				l = "(" + l + ")"
-			}
-			if r.Intn(6) == 0 {
-				rr = "(" + rr + ")"
-			}
-			e = l + " && " + rr
 		}
+		l, rr := x+" "+o1+" "+c1, x2+" "+o2+" "+c2
+		if r.Intn(6) == 0 {
+			l = "(" + l + ")"
+		}
+		if r.Intn(6) == 0 {
+			rr = "(" + rr + ")"
+		}
+		e = l + " && " + rr
 	case n < 65: // offBy1
 		// indexed operands of every kind: slices, strings, defined slice/string/map types, arrays and
 		// pointers to arrays (rejected by the type checker when the index is a constant out of range),
@@ -297,14 +316,17 @@ func runExprClaims(meta *common.Meta, seed int64, outDir string, n int) {
 	hdr := "From GC Require Import Base Model_Expr Model_BoolSimp Model_Claims.\n" +
 		"(* (expression, diagnostics of sloppyLen / badCond / offBy1 / dupSubExpr inside it; blanks removed) *)\n" +
 		"Definition norm (l : list string) := map strip_spaces l.\n" +
+		"(* the ruleguard engine does not emit the matches of one rule group in source order: compare as multisets *)\n" +
+		"Definition count (x : string) (l : list string) := List.length (filter (String.eqb x) l).\n" +
+		"Definition perm_eqb (a b : list string) := Nat.eqb (List.length a) (List.length b) && forallb (fun x => Nat.eqb (count x a) (count x b)) a.\n" +
 		"Definition case_ok (c : expr * (list string * list string * list string * list string * list string)) : bool :=\n" +
 		"  let '(e, (sl, bc, ob, ds, da)) := c in\n" +
 		"  is_bool_ty (typeof e) &&\n" +
-		"  list_eqb String.eqb (norm (walk_claims sloppy_len_msgs e)) sl &&\n" +
+		"  perm_eqb (norm (walk_claims sloppy_len_msgs e)) sl &&\n" +
 		"  list_eqb String.eqb (norm (walk_claims bad_cond_msgs e)) bc &&\n" +
-		"  list_eqb String.eqb (norm (walk_claims off_by1_msgs e)) ob &&\n" +
+		"  perm_eqb (norm (walk_claims off_by1_msgs e)) ob &&\n" +
 		"  list_eqb String.eqb (norm (walk_claims dup_sub_expr_msgs e)) ds &&\n" +
-		"  list_eqb String.eqb (norm (walk_claims dup_arg_msgs e)) da.\n" +
+		"  perm_eqb (norm (walk_claims dup_arg_msgs e)) da.\n" +
 		"Definition cases : list (expr * (list string * list string * list string * list string * list string)) := [\n"
 	const shards = 4
 	bodies := make([][]string, shards)
@@ -411,7 +433,7 @@ func runExprClaims(meta *common.Meta, seed int64, outDir string, n int) {
 	}
 }
 
-var outsideFragmentRe = regexp.MustCompile(`\b(ms|mi|mm|ma|pa|w|gxs)\b`)
+var outsideFragmentRe = regexp.MustCompile(`\b(ms|mi|mm|ma|pa|w|gxs|fa|mc|mc2|mf|mg|fmf)\b`)
 
 var impureCallRe = regexp.MustCompile(`\b(fi|gi|hi|fu|ff|hf|fs|fb|fbs|fxs)\(`)
 
